@@ -426,7 +426,7 @@ theorem decWitness_lin (H : Bytes → Bytes) (c : Commit) : Lin 256 32 (decWitne
   | veto sc suf vote => exact Lin.bind (m256 readVarstrList_lin) fun _ => Lin.pure _ _ _
 
 theorem decInput_lin (H : Bytes → Bytes) : Lin 256 32 (decInput H) :=
-  Lin.bind (readVarint63_lin _ _) fun _ =>
+  Lin.bind (readVarint63_lin _ _) fun _ => Lin.ite (Lin.fail _ _ _) <|
     Lin.bind (readExt_lin (Lin.ite (Lin.pure _ _ _) (Lin.bind decCommit_lin fun _ => Lin.pure _ _ _))) fun p =>
       Lin.bind (readExt_lin (by
         cases p.1 with
@@ -434,7 +434,7 @@ theorem decInput_lin (H : Bytes → Bytes) : Lin 256 32 (decInput H) :=
         | some c => exact Lin.bind (decWitness_lin H c) fun _ => Lin.pure _ _ _)) fun _ => Lin.pure _ _ _
 
 theorem decInput_cons (H : Bytes → Bytes) : Cons (decInput H) :=
-  Cons.bind_left readVarint63_cons fun _ =>
+  Cons.bind_left readVarint63_cons fun _ => Lin.ite (Lin.fail _ _ _) <|
     Lin.bind (readExt_lin (Lin.ite (Lin.pure _ _ _) (Lin.bind decCommit_lin fun _ => Lin.pure _ _ _))) fun p =>
       Lin.bind (readExt_lin (by
         cases p.1 with
@@ -547,7 +547,7 @@ theorem lin_le {α} {c s : Nat} {m : Dec α} (hm : Lin c s m) {bs : Bytes} {a : 
 
 /-- a decoded transaction has at most as many inputs and outputs as bytes were consumed -/
 theorem decTx_count (H : Bytes → Bytes) {bs : Bytes} {tx : TxData} {r : Bytes} (h : (decTx H bs).out = .ok tx r) :
-    tx.inputs.length + tx.outputs.length + r.length ≤ bs.length := by
+    tx.inputs.length + tx.outputs.length + r.length + 1 ≤ bs.length := by
   unfold decTx at h
   obtain ⟨_, r0, h0, h⟩ := bind_ok_inv h
   simp only [remaining_out, Out.ok.injEq] at h0
@@ -617,5 +617,98 @@ theorem txMapped_alloc (H : Bytes → Bytes) (bs : Bytes) :
   | panic =>
     rw [bind_alloc_err (by intro a r h; rw [ho] at h; cases h)]
     rw [Nat.add_mul]; omega
+
+/-! ### headers and blocks (suplinks grow by `append`, one entry per at least 43 bytes read) -/
+
+theorem decSigs_lin (c s : Nat) : ∀ n, Lin c s (decSigs n) := by
+  intro n
+  induction n with
+  | zero => exact Lin.pure _ _ _
+  | succ n ih => exact Lin.bind (readVarstr31_lin _ _) fun _ => Lin.bind ih fun _ => Lin.pure _ _ _
+
+theorem decSupLink_lin (c s : Nat) : Lin c s decSupLink :=
+  Lin.bind (readVarint63_lin _ _) fun _ => Lin.bind (readHash_lin _ _) fun _ => Lin.bind (decSigs_lin _ _ _) fun _ => Lin.pure _ _ _
+
+theorem decSupLink_cons : Cons decSupLink :=
+  Cons.bind_left (c := 0) (s := 0) readVarint63_cons fun _ =>
+    Lin.bind (readHash_lin _ _) fun _ => Lin.bind (decSigs_lin _ _ _) fun _ => Lin.pure _ _ _
+
+/-- `SupLinks.readFrom`: 296 charged bytes per suplink actually read -/
+theorem decSupLinks_lin : Lin 296 296 decSupLinks :=
+  Lin.bind (readVarint31_lin _ _) fun n =>
+    Lin.mono (by decide) (by decide) (readN_lin (aSupLink + aPtr) (decSupLink_lin 0 0) decSupLink_cons n)
+
+/-- `BlockHeader.readFrom` -/
+theorem decHeader_lin : Lin 296 296 decHeader :=
+  Lin.bind (readByte_lin _ _) fun _ => Lin.ite (Lin.pure _ _ _) (Lin.ite (Lin.fail _ _ _)
+    (Lin.bind (readVarint63_lin _ _) fun _ => Lin.bind (readVarint63_lin _ _) fun _ => Lin.bind (readHash_lin _ _) fun _ =>
+      Lin.bind (readVarint63_lin _ _) fun _ => Lin.bind (readExt_lin (readHash_lin _ _)) fun _ =>
+      Lin.bind (readExt_lin (readVarstr31_lin _ _)) fun _ => Lin.bind (readExt_lin decSupLinks_lin) fun _ => Lin.pure _ _ _))
+
+theorem mapRest_alloc (tx : TxData) (r : Bytes) :
+    ((mapTxD tx >>= fun _ => (Pure.pure tx : Dec TxData)) r).alloc ≤ aEntry * (2 * tx.inputs.length + tx.outputs.length + 2) := by
+  have hmap : (mapTxD tx r).alloc ≤ aEntry * (2 * tx.inputs.length + tx.outputs.length + 2) := by
+    unfold mapTxD; split
+    · exact Nat.zero_le _
+    · exact Nat.le_refl _
+  have hpure : ∀ (u : Unit) (r' : Bytes), ((Pure.pure tx : Dec TxData) r').alloc = 0 := fun _ _ => rfl
+  cases hm : (mapTxD tx r).out with
+  | ok u r' => rw [bind_alloc_ok hm, hpure ()]; omega
+  | err e => rw [bind_alloc_err (by intro a r' h; rw [hm] at h; cases h)]; exact hmap
+  | panic => rw [bind_alloc_err (by intro a r' h; rw [hm] at h; cases h)]; exact hmap
+
+theorem mapRest_ok {tx tx' : TxData} {r r' : Bytes}
+    (h : ((mapTxD tx >>= fun _ => (Pure.pure tx : Dec TxData)) r).out = .ok tx' r') : r' = r := by
+  obtain ⟨u, r1, h1, h2⟩ := bind_ok_inv h
+  simp only [pure_out, Out.ok.injEq] at h2
+  unfold mapTxD at h1
+  split at h1
+  · cases h1
+  · simp only [tick_out, Out.ok.injEq] at h1
+    rw [← h2.2, ← h1.2]
+
+/-- one transaction of a block, `NewTx` included: the entries `MapTx` allocates are paid for by
+    the bytes of the inputs and outputs just read -/
+theorem decBlockTx_lin (H : Bytes → Bytes) : Lin 2408 1224 (decBlockTx H) := by
+  intro bs
+  unfold decBlockTx decBlockTxWith
+  obtain ⟨hl1, hl2⟩ := decTx_lin H bs
+  cases ho : (decTx H bs).out with
+  | ok tx r =>
+    obtain ⟨d, hd, hk⟩ := hl2 tx r ho
+    have hcount := decTx_count H ho
+    have hrest := mapRest_alloc tx r
+    rw [bind_alloc_ok ho, bind_ok ho]
+    have hb : 2 * tx.inputs.length + tx.outputs.length + 2 ≤ 2 * d + 2 := by omega
+    have hm := Nat.mul_le_mul_left aEntry hb
+    have e : aEntry * (2 * d + 2) = 1024 * d + 1024 := by unfold aEntry; ring
+    have hd1 : 1 ≤ d := by omega
+    have hdn : d ≤ bs.length := by omega
+    refine ⟨by omega, ?_⟩
+    intro tx' r' hr
+    have := mapRest_ok hr
+    subst this
+    exact ⟨d, hd, by omega⟩
+  | err e =>
+    rw [bind_alloc_err (by intro a r h; rw [ho] at h; cases h), bind_err ho]
+    exact ⟨by omega, by intro a r h; cases h⟩
+  | panic =>
+    rw [bind_alloc_err (by intro a r h; rw [ho] at h; cases h), bind_panic ho]
+    exact ⟨by omega, by intro a r h; cases h⟩
+
+theorem decBlockTx_cons (H : Bytes → Bytes) : Cons (decBlockTx H) := by
+  intro bs tx r h
+  unfold decBlockTx decBlockTxWith at h
+  obtain ⟨tx1, r1, h1, h2⟩ := bind_ok_inv h
+  have := decTx_count H h1
+  have := mapRest_ok h2
+  subst this
+  omega
+
+/-- `Block.readFrom` -/
+theorem decBlock_lin (H : Bytes → Bytes) : Lin 2544 1360 (decBlock H) :=
+  Lin.bind (Lin.mono (by decide) (by decide) decHeader_lin) fun _ => Lin.ite (Lin.pure _ _ _)
+    (Lin.bind (readVarint31_lin _ _) fun n =>
+      Lin.bind (readN_lin (aTx + aPtr) (decBlockTx_lin H) (decBlockTx_cons H) n) fun _ => Lin.pure _ _ _)
 
 end BytomModel.Lemmas.Codec
